@@ -1,6 +1,14 @@
 #ifndef WRAP_SYS_H
 #define WRAP_SYS_H
+#include <stddef.h>
 extern int hxw_log_on; extern char hxw_log[8192];
 extern int hxw_fail_from, hxw_fail_only, hxw_count, hxw_count_on, hxw_live_blocks; extern char hxw_events[16384];
 void hxw_log_reset(void); void hxw_ev_reset(void);
+/* scripted getentropy / gettimeofday / getpid / open("/dev/[u]random") for C18 rngint */
+#define HXW_RNG_MAX 64
+extern int hxw_rng_on, hxw_rng_open_fail;
+extern const unsigned char *hxw_rng_ent[HXW_RNG_MAX]; extern long hxw_rng_entlen[HXW_RNG_MAX]; extern int hxw_rng_nent;
+extern long long hxw_rng_sec[HXW_RNG_MAX], hxw_rng_usec[HXW_RNG_MAX]; extern int hxw_rng_ntime;
+extern long hxw_rng_pid[HXW_RNG_MAX]; extern int hxw_rng_npid;
+extern size_t hxw_rng_ent_log[HXW_RNG_MAX]; extern int hxw_rng_ent_calls, hxw_rng_time_calls, hxw_rng_pid_calls, hxw_rng_open_calls;
 #endif
